@@ -11,6 +11,9 @@ package main
 //                  language's entry points object.Len / First / Rest / Range / Equals
 //        api-meth  the same map observed through the methods of the Map interface
 //        src       the same history as grol source through repl.EvalOne on a fresh state
+//      Emitted besides the transitions, for every state: the map held by a constant (kbind / kset / kdel),
+//      two merges from one operand (fork), a merge onto a view (view); every line also carries the printed
+//      forms of the values the variable held earlier, which are compared after the operation.
 //      The Go side holds no oracle: it compares strings / numbers produced by the real code with
 //      the strings / numbers the spec emitted.
 // TV   long random histories over ~36 keys run on the real code (Go API and source), recorded
